@@ -581,6 +581,22 @@ func c20(r *Run) {
 			}
 		}
 		r.check(okk, "C20.R4", "Accept:refusal-precedes-effects", w.rel(acc.Pos()), "", "an effect of Accept (index update, queueing, unpinning, last-accepted) is reachable for an unverified block while the VM is ready")
+		// every successful Accept leaves the processing map and becomes last accepted
+		for _, pat := range []string{"call builtin.delete(p0.vm.verifiedBlocks, *)", "call (*snow.VM).setLastAccepted(p0.vm, p0)"} {
+			es := findEffects(acc, pat)
+			okE := len(es) == 1
+			if okE {
+				for _, o := range returnOutcomes(acc) {
+					if !o.isPotentialSuccess() {
+						continue
+					}
+					if found, _ := pathExists(point{acc.Blocks[0], 0}, isInstr(o.Ret), isInstr(es[0].Ins), nil); found {
+						okE = false
+					}
+				}
+			}
+			r.check(okE, "C20.R4", "Accept:on-success:"+pat, w.rel(acc.Pos()), "", "Accept can succeed without "+pat+" (the accepted block stays pinned as processing / is not the last accepted block)")
+		}
 	}
 	rj := r.fn(w, "C20.R4", nmSB+"Reject")
 	if rj != nil {
